@@ -49,6 +49,11 @@ func run(r *core.R) {
 		weights[opReleaseOwn] = 20 + src.Intn(14, "w_relown_f")
 		weights[opClaimAffinity], weights[opReleaseAffinity], weights[opReleaseHostAffinities], weights[opEnsureBlock] = 0, 0, 0, 0
 	}
+	if w.staleRel {
+		weights[opAssignIP] = src.Intn(4, "w_assignip_s")
+		weights[opReleaseOwn] = 25 + src.Intn(12, "w_relown_s")
+		weights[opClaimAffinity], weights[opReleaseAffinity], weights[opReleaseHostAffinities], weights[opEnsureBlock] = 0, 0, 0, 0
+	}
 	capAsserted := w.maxBlocks > 0
 	callersPerHost := src.Range(1, 2, "callers_per_host")
 	w.capAsserted = capAsserted
@@ -75,6 +80,12 @@ func run(r *core.R) {
 	opsPer := src.Range(3, 14, "ops_per_actor")
 	if w.fifo {
 		opsPer = src.Range(10, 24, "ops_per_actor_f")
+	}
+	if w.staleRel {
+		opsPer = src.Range(10, 22, "ops_per_actor_s")
+		if !capAsserted {
+			callersPerHost = 2
+		}
 	}
 	mk := func(name, host string) *actorState {
 		a := &actorState{w: w, name: name, host: host, client: w.newClient()}
@@ -130,6 +141,9 @@ func run(r *core.R) {
 		// release) while the other hosts carry on
 		if w.contention && q.Write && src.Chance(150, "stall_claim") {
 			return src.Range(3, 40, "stall_len")
+		}
+		if w.staleRel && src.Chance(80, "stall_any") {
+			return src.Range(2, 25, "stall_len_s")
 		}
 		return 0
 	}
